@@ -596,7 +596,10 @@ impl Store {
             for id in filter.ids() {
                 // (the limit is applied at the end, to the newest events; stopping
                 // here would keep the first-listed ids instead)
-                if let Some(event) = self.get_event_by_id(id)? {
+                // Every id is looked up in this query's own read transaction, so that the
+                // answer is taken from one committed state even while writers run.
+                if let Some(offset) = self.indexes.get_offset_by_id(&txn, id)? {
+                    let event = unsafe { self.events.get_event_by_offset(offset as usize)? };
                     // and check each against the rest of the filter
                     if filter.event_matches(event)? && screen(event) {
                         let _ = output.insert(event);
